@@ -55,6 +55,27 @@ class Builder:
         self.members.append((k, ns))
         return k
 
+    def resolve(self, k, key):
+        """the member `key` as class k sees it (own, else the first base that has it - depth first)"""
+        for kk, ns_ in self.members:
+            if kk == k:
+                for key_, m in ns_:
+                    if key_ == key and isinstance(m, dict):
+                        return m
+                for o in self.ops:
+                    if o["op"] == "class" and o["k"] == k:
+                        for bb in o["bases"]:
+                            r = self.resolve(bb, key)
+                            if r is not None:
+                                return r
+        return None
+
+    def may_take_over(self, bases, key, member):
+        """taking the member over from one base is generated only when no OTHER base resolves the key to something else
+        (with several bases handing down different members the library writes onto the shared function: a known finding
+        that has its own hand-written stream)"""
+        return all(self.resolve(bb, key) in (None, member) for bb in bases)
+
     def add_inv(self, k, call=True, setattr_=False):
         self.ops.append(op("inv", k=k, c=self.next_c, call=call, setattr=setattr_))
         self.next_c += 1
@@ -90,8 +111,31 @@ def random_history(rng, max_classes=6, p_inv=0.5, keys=KEYS, late=False):
                         acc[a] = b.new_fn(rng.choice([0, 1]), np_, rng.choice([0, 0, 1]) if np_ else 0)
                 if not acc:
                     acc["fget"] = b.new_fn(npre, npost)
+                # `@Base.p.setter` / `.getter` / `.deleter`: the derived property TAKES OVER the other accessors of a base's
+                # property - the very same function objects
+                inherited = [m["prop"] for kk, ns_ in b.members if kk in bases for key_, m in ns_ if key_ == "p" and isinstance(m, dict) and "prop" in m
+                             and b.may_take_over(bases, "p", m)]
+                if inherited and rng.random() < 0.6:
+                    src = rng.choice(inherited)
+                    redefined = rng.choice(["fget", "fset", "fdel"])
+                    for a in ("fget", "fset", "fdel"):
+                        if a != redefined:
+                            if src.get(a) is not None:
+                                acc[a] = src[a]
+                            else:
+                                acc.pop(a, None)
+                    if redefined not in acc:
+                        acc[redefined] = b.new_fn(0, rng.choice([0, 1]))
                 ns.append(b.member(key, **acc))
             else:
+                # `m = Base.m`: the member is TAKEN OVER from a direct base as it is (to choose an implementation among
+                # several bases, or the `__hash__ = Base.__hash__` idiom) - the very same function object
+                kind_of = {"s": "static", "c": "classm"}.get(key, "func")
+                shared = [m[kind_of]["f"] for kk, ns_ in b.members if kk in bases for key_, m in ns_
+                          if key_ == key and isinstance(m, dict) and kind_of in m and b.may_take_over(bases, key, m)]
+                if shared and key not in ("__init__",) and rng.random() < 0.2:
+                    ns.append(b.member(key, rng.choice(shared)))
+                    continue
                 f = b.new_fn(npre, npost, nsnap, sname)
                 if rng.random() < 0.12:
                     # the function object is called differently than the attribute it is bound to (an alias / a shared
@@ -148,6 +192,41 @@ def random_history(rng, max_classes=6, p_inv=0.5, keys=KEYS, late=False):
         c["fnNames"] = fn_names
     c["module"] = rng.choice(["verif_hist", "verif_hist", "icontract_models", "icontractual.shapes", "my_icontract", "icontract_ext"])
     return c
+
+
+def taken_over_shapes():
+    """a derived class binds again the very function object of a base's member: with ONE base providing the member nothing
+    changes anywhere (repair d4767ed); with ANOTHER base handing down contracts of its own the library writes them onto
+    the shared function (known finding of C17)"""
+    for kind in ("func", "classm", "static", "prop"):
+        for npost, npre, nsnap in ((1, 1, 0), (2, 0, 1), (1, 2, 0)):
+            for other_base in (False, True):
+                b = Builder()
+                key = {"func": "m", "classm": "c", "static": "s", "prop": "p"}[kind]
+                if kind == "prop":
+                    g = b.new_fn(npre, npost, nsnap)
+                    st = b.new_fn(0, 1)
+                    a = b.add_class([], [b.member("p", fget=g, fset=st)])
+                else:
+                    f = b.new_fn(npre, npost, nsnap)
+                    a = b.add_class([], [b.member(key, f)])
+                bases = [a]
+                if other_base:
+                    if kind == "prop":
+                        g2 = b.new_fn(1, 1)
+                        o = b.add_class([], [b.member("p", fget=g2)])
+                    else:
+                        f2 = b.new_fn(1, 1)
+                        o = b.add_class([], [b.member(key, f2)])
+                    bases = [o, a]
+                for _ in range(2):
+                    if kind == "prop":
+                        b.add_class(bases, [b.member("p", fget=g, fset=b.new_fn(0, 1))])
+                    else:
+                        b.add_class(bases, [b.member(key, f)])
+                c = b.case()
+                c["module"] = "verif_hist"
+                yield c
 
 
 def late_shapes():
